@@ -31,6 +31,7 @@ type SpecEnv struct {
 	prove        bool   // clause is being proved (witness hints of exists are used), not assumed
 	ghostFromOld bool   // ghost variables read their value before the call (right-hand sides of ghostsets)
 	preSt        *State // loop-entry state for pre(...) inside loop invariants
+	preEnv       map[ssa.Value]SV // loop-entry values of the header phis, for pre(...)
 	skolem       *int   // non-nil: skolemise quantifiers in goal position (counts how many were)
 	neg, mixed   bool   // polarity of the sub-expression being evaluated
 	freshBase    string // watermark that fresh() is relative to (call-time watermark at a call site); "" = function entry
@@ -194,8 +195,32 @@ func (e *SpecEnv) lookupLocal(name string) (SVal, bool) {
 			}
 		}
 	}
+	if e.loopHeader != nil && name == "rangeindex" {
+		// not a range loop itself: the range counter of the innermost enclosing range loop
+		var best *ssa.Phi
+		for _, b := range f.fn.Blocks {
+			if b == e.loopHeader || !b.Dominates(e.loopHeader) {
+				continue
+			}
+			for _, in := range b.Instrs {
+				if phi, ok := in.(*ssa.Phi); ok && phi.Comment == name && get(phi).T != "" {
+					if best == nil || best.Block().Dominates(b) {
+						best = phi
+					}
+				}
+			}
+		}
+		if best != nil {
+			return goVal(get(best).T, best.Type()), true
+		}
+	}
 	// address-taken local
-	if vs, ok := f.debugAll["&"+name]; ok {
+	vsA, okA := f.debugAll["&"+name]
+	if !okA {
+		vsA = f.staticAllocs(name)
+		okA = len(vsA) > 0
+	}
+	if vs, ok := vsA, okA; ok {
 		for k := len(vs) - 1; k >= 0; k-- {
 			v := vs[k]
 			if e.dominatesHere(v) {
@@ -766,7 +791,7 @@ func (e *SpecEnv) bind(name string, v specVar) *SpecEnv {
 func (e *SpecEnv) call(x *Expr) SVal {
 	c := e.c
 	fn := x.Args[0]
-	if fn.Op != "id" || (fn.Name != "old" && fn.Name != "pre" && fn.Name != "forall" && fn.Name != "forallq" && fn.Name != "exists") {
+	if fn.Op != "id" || (fn.Name != "old" && fn.Name != "pre" && fn.Name != "preheap" && fn.Name != "forall" && fn.Name != "forallq" && fn.Name != "exists") {
 		_, isDef := e.x.S.Defs[fn.Name]
 		if !(fn.Op == "id" && isDef && e.x.S.Defs[fn.Name].Ret == "Bool") {
 			e = e.mix()
@@ -939,6 +964,22 @@ func (e *SpecEnv) call(x *Expr) SVal {
 				base = e.freshBase
 			}
 			return goVal("(>= "+ref+" "+base+")", tBool)
+		case "loopfresh":
+			// allocated since the entry of the loop whose invariant this is
+			if e.preSt == nil {
+				e.fail("loopfresh() outside a loop invariant")
+			}
+			a := e.eval(args[0])
+			ref := a.T
+			if a.Typ != nil {
+				switch a.Typ.Underlying().(type) {
+				case *types.Slice:
+					ref = "(s.ref " + a.T + ")"
+				case *types.Interface:
+					ref = "(i.ref " + a.T + ")"
+				}
+			}
+			return goVal("(>= "+ref+" "+e.preSt.wm()+")", tBool)
 		case "ite":
 			cnd := e.evalBool(args[0])
 			a, b := e.eval(args[1]), e.eval(args[2])
@@ -1018,6 +1059,16 @@ func (e *SpecEnv) call(x *Expr) SVal {
 			// pre(e): e evaluated in the heap as it was when the loop was first entered (loop invariants only)
 			if e.preSt == nil {
 				e.fail("pre(...) is only meaningful in a loop invariant")
+			}
+			pe := e.withState(e.preSt)
+			if e.preEnv != nil {
+				pe.override = e.preEnv
+			}
+			return pe.eval(args[0])
+		case "preheap":
+			// preheap(e): like pre(e), but loop variables keep their current values (only the heap is the loop-entry one)
+			if e.preSt == nil {
+				e.fail("preheap(...) is only meaningful in a loop invariant")
 			}
 			return e.withState(e.preSt).eval(args[0])
 		case "visited":
@@ -1263,7 +1314,11 @@ func (e *SpecEnv) assignTarget(part string) ([]assignTarget, error) {
 	}
 	if !star && e.frame != nil && isIdent(part) {
 		// a local variable that lives in memory (captured by a closure or address-taken): its cell
-		if vs := e.frame.debugAll["&"+part]; len(vs) > 0 {
+		vs := e.frame.debugAll["&"+part]
+		if len(vs) == 0 {
+			vs = e.frame.staticAllocs(part)
+		}
+		if len(vs) > 0 {
 			v := vs[len(vs)-1]
 			sv, ok := e.frame.env[v]
 			if e.override != nil {
@@ -1567,4 +1622,20 @@ func isIdent(s string) bool {
 		}
 	}
 	return true
+}
+
+// staticAllocs finds the memory cells of the named local (ssa.Alloc carries the source name as its comment) that have
+// already been executed; used when the DebugRef that binds the name lies inside a loop whose head is being specified.
+func (f *Frame) staticAllocs(name string) []ssa.Value {
+	var out []ssa.Value
+	for _, b := range f.fn.Blocks {
+		for _, in := range b.Instrs {
+			if a, ok := in.(*ssa.Alloc); ok && a.Comment == name {
+				if sv, ok := f.env[a]; ok && (sv.T != "" || sv.A != nil) {
+					out = append(out, a)
+				}
+			}
+		}
+	}
+	return out
 }
